@@ -214,7 +214,7 @@ func (env *Env) isInternalID(name string, tags map[string]string) bool {
 		want[env.Model.sanKey(k)] = env.Model.sanValue(v)
 	}
 	if len(tags) != len(want) {
-		return isInternalName(name) && env.Prog.Cfg.Stack != "plain" && env.Prog.Cfg.Stack != "cached"
+		return isInternalName(name) && env.Prog.Cfg.Stack != "plain" && env.Prog.Cfg.Stack != "cached" && env.Prog.Cfg.Stack != "both"
 	}
 	for k, v := range want {
 		got, ok := tags[k]
